@@ -231,6 +231,11 @@ def run(ctx):
             ctx.ob("C14.F5.raw-emission-is-reviewed", tag + f.path, f.path in RAW_ADD_OK,
                    "instruction emitted without a line record: errors raised by it carry no location", f.where(bb))
         ctx.count("configs")
+    from .c14_lines import check_lines
+    from .c14_spans import check_span_expansion
+    for cname in ctx.configs():
+        check_lines(ctx, ctx.program(cname), "" if cname == "MAX" else "[%s]" % cname)
+        check_span_expansion(ctx, ctx.program(cname), "" if cname == "MAX" else "[%s]" % cname)
     ctx.sample({"Err exits": len(errs), "process_err calls": len(perr)})
 
 
